@@ -44,10 +44,11 @@ ASSUMPTIONS = {"C12": [
 PANEL_TRANSFORMERS = {
     "ColumnConcatenator": {}, "PAA": {"num_intervals": [2, 4]}, "SAX": {"word_length": [4], "window_size": [8]},
     "DWTTransformer": {"num_levels": [1, 2]}, "HOG1DTransformer": {}, "TSInterpolator": {"length": [8, 20]},
-    "PaddingTransformer": {}, "Tabularizer": {}, "RandomIntervalSegmenter": {"n_intervals": [2, "sqrt"]},
+    "PaddingTransformer": {"pad_length": [None, None, 40]}, "Tabularizer": {}, "RandomIntervalSegmenter": {"n_intervals": [2, "sqrt"]},
     "SlidingWindowSegmenter": {"window_length": [3, 5]}, "SlopeTransformer": {"num_intervals": [2, 4]},
     "DerivativeSlopeTransformer": {}, "PlateauFinder": {"value": [0.0]},
-    "RandomIntervalFeatureExtractor": {"n_intervals": [2, "sqrt"]}, "TruncationTransformer": {},
+    "RandomIntervalFeatureExtractor": {"n_intervals": [2, "sqrt"]},
+    "TruncationTransformer": {"lower": [None, None, 8, 12]},
     "MatrixProfile": {"m": [4]}, "SFA": {"word_length": [4], "window_size": [8]},
     # (no Parallel inside: only the input-mutation, repeat-call and pickle clauses bite here)
     "Rocket": {"num_kernels": [20, 50], "normalise": [True, True, False]},
@@ -89,7 +90,7 @@ def generate(prop, rng, tier):
                       "p": rng.choice([0.01, 0.05, 0.2])},
             "sib_sched": {"mode": rng.choice(["ooo", "interleave", "interleave"]),
                           "seed": rng.randint(0, 10 ** 6), "p": rng.choice([0.01, 0.05, 0.2])},
-            "random_state": rng.randint(0, 99)}
+            "random_state": rng.choice([0, rng.randint(0, 99), rng.randint(0, 99), rng.randint(0, 99)])}
     if cat == "forecaster":
         spec = C.gen_forecaster(rng, depth=rng.choice([0, 0, 1, 2]), allow_slow=rng.random() < 0.25)
         r1 = rng.random()
@@ -114,7 +115,8 @@ def generate(prop, rng, tier):
             elif rng.random() < 0.2:
                 # in-sample / mixed horizons (a forecaster that cannot do them must fail the
                 # same way on the twin)
-                calls.append({"m": "predict", "fh": rng.choice([[-2, -1, 0], [-1, 1, 2], [0], [-3, 2]])})
+                calls.append({"m": "predict", "fh": rng.choice([
+                    [-2, -1, 0], [-1, 1, 2], [0], [-3, 2], [-(scen["n"] - 2), -3], [-(scen["n"] - 1)]])})
             else:
                 calls.append({"m": "predict", "fh": sorted(rng.sample(range(1, 8), rng.randint(1, 3)))})
     elif cat == "series":
@@ -198,7 +200,7 @@ def generate(prop, rng, tier):
         k = rng.randrange(len(calls))
         calls.insert(k + 1, {"m": "interlope",
                              "what": "optional_other" if has_optional and rng.random() < 0.8
-                             else rng.choice(["same_class", "optional_other"]),
+                             else rng.choice(["same_class", "optional_other", "same_args", "same_args"]),
                              "order": rng.sample([0, 1, 2], 3), "pickle_before": False})
         calls.insert(k + 2, dict(calls[rng.randrange(k + 1)], pickle_before=False))
     scen["calls"] = calls
@@ -540,8 +542,12 @@ def execute(prop, scen):
             with peers.paused():
                 try:
                     with sched.scenario_schedule(sched.Scheduler("fifo", 0)):
-                        _interlope(c["what"], build, fit, other_train,
-                                   y if cat in ("forecaster", "series") else None, c.get("order"))
+                        if c["what"] == "same_args":
+                            # built from the very same constructor argument objects
+                            fit(type(est)(**est.get_params(deep=False)), other_train())
+                        else:
+                            _interlope(c["what"], build, fit, other_train,
+                                       y if cat in ("forecaster", "series") else None, c.get("order"))
                     res.probe("interloper_ran")
                     res.fault("other_instance_interleaved")
                 except Exception as e:  # noqa
@@ -679,6 +685,32 @@ def execute(prop, scen):
                     v("refit_differs_from_fresh", "after set_params(%s) and a second fit predict returns "
                       "%s, a fresh estimator built with that configuration returns %s" % (
                           sorted(newp), _short(r1), _short(r2)), method="predict", reconfigured=True)
+            except Exception as e:  # noqa
+                digest.update(("reconf:%s" % type(e).__name__).encode())
+    if cat in ("panel", "classifier", "regressor") and not res.violations:
+        table_ = PANEL_TRANSFORMERS if cat == "panel" else CLASSIFIERS if cat == "classifier" else REGRESSORS
+        import random as _random
+        r_ = _random.Random(scen.get("variant_seed", 0))
+        alts = [(k_, v_) for k_, vals in sorted(table_.get(scen["name"], {}).items())
+                for v_ in vals if v_ != scen["params"].get(k_)]
+        if alts:
+            k_, v_ = alts[r_.randrange(len(alts))]
+            try:
+                params2 = dict(scen["params"], **{k_: v_})
+                fresh = build_named(scen["name"], params2, scen["n_jobs"], scen["random_state"])
+                probe_c = [c_ for c_ in scen["calls"] if c_["m"] != "interlope"][0]
+                with sched.scenario_schedule(sched.Scheduler("fifo", 0)):
+                    est.set_params(**{k_: v_})
+                    fit(est, train())
+                    fit(fresh, train())
+                    r1 = do_call(est, probe_c, call_args(probe_c))
+                    r2 = do_call(fresh, probe_c, call_args(probe_c))
+                res.probe("reconfigured_refit_compared_with_fresh")
+                if not deep_equal(r1, r2):
+                    v("refit_differs_from_fresh", "after set_params(%s=%r) and a second fit %s returns "
+                      "%s, a fresh estimator built with that configuration returns %s" % (
+                          k_, v_, probe_c["m"], _short(r1), _short(r2)), method=probe_c["m"],
+                      reconfigured=True)
             except Exception as e:  # noqa
                 digest.update(("reconf:%s" % type(e).__name__).encode())
     if _rng_digest() != rng_state:
